@@ -405,3 +405,12 @@ Proof.
   assert (forallb (fun x => negb (x =? df)) only = true) as T; [|congruence].
   apply forallb_forall. intros x Hx. apply negb_true_iff, N.eqb_neq. congruence.
 Qed.
+
+Lemma run_lines_all_ineffective o now : forall ls s s',
+  (forall l, In l ls -> effective o l = false) -> run_lines o now s ls = Ok s' -> s' = s.
+Proof.
+  induction ls as [|l t IH]; cbn [run_lines]; intros s s' H R; [inversion R; reflexivity|].
+  destruct (step o now s l) as [x|] eqn:E; cbn [bind] in R; [|discriminate].
+  rewrite (step_ineffective _ _ _ _ _ E (H l (or_introl eq_refl))) in R.
+  apply IH; [|exact R]. intros l' I. apply H. right. exact I.
+Qed.
